@@ -34,10 +34,11 @@ const (
 	evRestart
 	evSubmitTwin // two submissions in the same (frozen) millisecond
 	evUpRelay2
+	evFailOne // only the first connected peer fails / works again
 	nEvents
 )
 
-var evNames = []string{"submit", "submit_zero_time", "rx", "up_relay", "up_dest", "down", "toggle_fail", "retry_tick", "clean_tick", "restart", "submit_twin", "up_relay2"}
+var evNames = []string{"submit", "submit_zero_time", "rx", "up_relay", "up_dest", "down", "toggle_fail", "retry_tick", "clean_tick", "restart", "submit_twin", "up_relay2", "toggle_fail_first_peer"}
 
 type mBundle struct {
 	createdMs uint64
@@ -58,6 +59,7 @@ type scenario struct {
 	bundles []*mBundle
 	up      map[string]bool
 	failing bool
+	failOne map[string]bool
 	nextPID int
 	hist    []string
 	viol    bool
@@ -142,7 +144,7 @@ func (sc *scenario) peerUpWith(name string) {
 	}
 	sc.up[name] = true
 	sc.s.PeerUpWith(name, func(p *nodesim.Peer) {
-		if sc.failing {
+		if sc.failing || sc.failOne[name] {
 			p.Fail()
 		}
 	})
@@ -154,7 +156,7 @@ func (sc *scenario) applyFailing() {
 			continue
 		}
 		if p := sc.s.Peer(n); p != nil {
-			if sc.failing {
+			if sc.failing || sc.failOne[n] {
 				p.Fail()
 			} else {
 				p.OK()
@@ -229,6 +231,15 @@ func (sc *scenario) apply(ev int) {
 		sc.failing = !sc.failing
 		sc.applyFailing()
 		sc.s.Step("toggle_fail", fmt.Sprint(sc.failing))
+	case evFailOne:
+		if n := sc.firstUp(); n != "" {
+			if sc.failOne == nil {
+				sc.failOne = map[string]bool{}
+			}
+			sc.failOne[n] = !sc.failOne[n]
+			sc.applyFailing()
+			sc.s.Step("toggle_fail_first_peer", n)
+		}
 	case evTick:
 		sc.s.Tick(10 * time.Second)
 		redispatch = true
